@@ -1253,6 +1253,8 @@ void Logic::dumpHeaderToFile(std::ostream & dump_out) const {
     vec<SymRef> const & symbols = sym_store.getSymbols();
     for (SymRef s : symbols) {
         if (s == getSym_true() || s == getSym_false()) continue;
+        // abstract values print as (as @n Sort) and ite is a reserved word: neither can be declared
+        if (not isKnownToUser(s) or isIte(s)) continue;
         if (isConstant(s)) {
             if (isBuiltinConstant(s)) continue;
             dump_out << "(declare-const ";
